@@ -180,7 +180,7 @@ theorem C12_sanitizeAttrs (p : Policy) (el : Bytes) (attrs : List Attr) (aps : A
 
 /-- non-vacuity -/
 example :
-    let p : Policy := { elsAndAttrs := [(b!"img", [(b!"src", [none]), (b!"crossorigin", [none])])],
+    let p : Policy := { initialized := true, elsAndAttrs := [(b!"img", [(b!"src", [none]), (b!"crossorigin", [none])])],
                         requireCrossOriginAnonymous := true }
     p.sanitizeCore b!"<img src=x crossorigin=use-credentials crossorigin>" =
       b!"<img src=\"x\" crossorigin=\"anonymous\" crossorigin=\"anonymous\">" := by decide
